@@ -165,6 +165,29 @@ theorem runFull_block (S : Scripts) (w0 : W) (h : List (List Action)) (f : Fresh
     simp only [Nat.one_mul] at this
     exact this
 
+/-- ... and chronologically that block begins with the `start` event: whatever was logged before backend() was entered
+    (the preload phase) is an untouched prefix of the trace -/
+theorem runFull_block_start (S : Scripts) (w0 : W) (h : List (List Action)) (f : Fresh w0) :
+    ∃ es, (runFull S w0 h).trace = es ++ (Ev.start :: w0.trace) ∧ BlockC es := by
+  unfold runFull
+  simp only []
+  have hrh := runHook_ok S hookFuel
+  have g0 := startup_good_start S _ hrh w0 f
+  obtain ⟨m1, g1, _, _⟩ := runScripted_gt S _ hrh h 1 _ false g0.1
+  obtain ⟨m2, g2, _⟩ := trailing_gt S _ hrh 256
+    (runScripted S (runHook S hookFuel) 1 h (startup S (runHook S hookFuel) w0) false).2.1
+    (if (runScripted S (runHook S hookFuel) 1 h (startup S (runHook S hookFuel) w0) false).2.2 = true then 1 else 0)
+    _ g1.1
+  have g3 := (g0.toC.trans g1).trans g2
+  obtain ⟨_, es, he, hb, _⟩ := g3
+  obtain ⟨fs, hf, hfb⟩ := finish_trext (trailing S (runHook S hookFuel) 256
+    (runScripted S (runHook S hookFuel) 1 h (startup S (runHook S hookFuel) w0) false).2.1
+    (if (runScripted S (runHook S hookFuel) 1 h (startup S (runHook S hookFuel) w0) false).2.2 = true then 1 else 0)
+    (runScripted S (runHook S hookFuel) 1 h (startup S (runHook S hookFuel) w0) false).1)
+  refine ⟨fs ++ es, ?_, hb.append hfb.toC⟩
+  rw [hf, he, List.append_assoc]
+  rfl
+
 theorem runFull_trext (S : Scripts) (w0 : W) (h : List (List Action)) (f : Fresh w0) :
     ∃ es, (runFull S w0 h).trace = es ++ w0.trace ∧ BlockC es := by
   obtain ⟨es, _, he, hb, _⟩ := runFull_block S w0 h f
@@ -269,6 +292,7 @@ def noteAct (x : Expect) : Action → Expect
   | .send c t => { x with sends := x.sends ++ [(c, t)] }
   | .cin t => { x with sends := x.sends ++ [(0, t)] }
   | .close c => { x with closed := c :: x.closed }
+  | .reset c => { x with closed := c :: x.closed }
   | _ => x
 
 def isTickAct : Action → Bool
@@ -300,6 +324,7 @@ def WFHist (h : List (List Action)) : Bool :=
   acts.all (fun a => match a with
     | .send c _ => conns.contains c
     | .close c => conns.contains c
+    | .reset c => conns.contains c
     | _ => true)
 
 /-- **the settling assumption, decidable:** the history ends as the generator's histories do - at least
